@@ -323,6 +323,38 @@ func VarUint(v uint64, long bool) []byte {
 	return x[:5]
 }
 
+// VarUintW spells v as a var-uint of exactly width bytes (1, 3, 5 or 9); ok=false if v does not
+// fit. Widths above the minimal one are the non-canonical spellings the decoders accept.
+func VarUintW(v uint64, width int) ([]byte, bool) {
+	x := make([]byte, 9)
+	switch width {
+	case 1:
+		if v >= 0xFD {
+			return nil, false
+		}
+		return []byte{byte(v)}, true
+	case 3:
+		if v > 0xFFFF {
+			return nil, false
+		}
+		x[0] = 0xFD
+		binary.LittleEndian.PutUint16(x[1:], uint16(v))
+		return x[:3], true
+	case 5:
+		if v > 0xFFFFFFFF {
+			return nil, false
+		}
+		x[0] = 0xFE
+		binary.LittleEndian.PutUint32(x[1:], uint32(v))
+		return x[:5], true
+	case 9:
+		x[0] = 0xFF
+		binary.LittleEndian.PutUint64(x[1:], v)
+		return x[:9], true
+	}
+	return nil, false
+}
+
 func (w *walker) countVar(name string, v uint64) {
 	e := VarUint(v, false)
 	w.pts = append(w.pts, Point{Name: name, Off: len(w.b), W: len(e), Enc: "varuint"})
